@@ -55,17 +55,16 @@ var verifReads int
 
 func verifReadFile(name string) ([]byte, error) {
 	verifReads++
-	base := name
-	for i := len(name) - 1; i >= 0; i-- {
-		if name[i] == '/' {
-			base = name[i+1:]
-			break
-		}
-	}
-	if _, ok := verifFiles[base]; !ok {
+	// the virtual file system holds the context directory /ctx only; keys are paths below it
+	const root = "/ctx/"
+	if len(name) <= len(root) || name[:len(root)] != root {
 		return nil, &verifrt.Err{Msg: "no such file " + name}
 	}
-	return []byte(base), nil
+	key := name[len(root):]
+	if _, ok := verifFiles[key]; !ok {
+		return nil, &verifrt.Err{Msg: "no such file " + name}
+	}
+	return []byte(key), nil
 }
 
 func verifAbs(p string) (string, error) {
@@ -88,7 +87,9 @@ func (vConverter) FromYAML(data []byte) (*workflow.Workflow, error) {
 // C11/C20: every sub-workflow file transitively referenced is loaded relative to the context
 // directory or reported missing; self- and mutually-referencing files do not recurse without bound.
 func VerifH_C11_subworkflow_cache() {
-	names := []string{"a.yaml", "b.yaml", "c.yaml"}
+	// one of the files lives in a sub-directory of the context directory: references are relative to the
+	// context directory wherever the referring file is
+	names := []string{"a.yaml", "sub/b.yaml", "c.yaml"}
 	verifFiles = map[string][]string{}
 	present := 1 + verifrt.Choice("files", 3)
 	for i := 0; i < present; i++ {
